@@ -302,8 +302,10 @@ Proof.
   { induction ls as [|[l p] ls IH]; intros mm; [reflexivity|].
     cbn [shift_lines map fold_left fst snd]. rewrite measure_string_translate. cbn [fst].
     rewrite update_mm_translate. apply IH. }
-  specialize (E (text_lines f s ts pos text) None). cbn [shift_mm] in E. rewrite E.
-  destruct (fold_left _ _ None) as [[mn mx]|]; cbn [shift_mm].
+  specialize (E (text_lines f s ts pos text) None). cbn [shift_mm] in E.
+  set (m := fold_left _ (text_lines f s ts pos text) None) in *.
+  set (m' := fold_left _ (shift_lines d (text_lines f s ts pos text)) None) in *.
+  rewrite E. clear E m'. destruct m as [[mn mx]|]; cbn [shift_mm].
   - unfold with_corners, translate_rect, size_from_bounding_box, padd. cbn [tl sz px py].
     f_equal; f_equal; lia.
   - reflexivity.
